@@ -420,15 +420,27 @@ class HTTP1Connection(httputil.HTTPConnection):
                 # No need to chunk the output if a Content-Length is specified.
                 and "Content-Length" not in headers
             )
+            if (
+                not self._chunking_output
+                and "Content-Length" not in headers
+                and self._request_start_line.method != "HEAD"
+                and start_line.code not in (204, 304)
+                and (start_line.code < 100 or start_line.code >= 200)
+            ):
+                # Neither Content-Length nor chunked encoding delimits the
+                # body, so it can only be ended by closing the connection.
+                self._disconnect_on_finish = True
             # If connection to a 1.1 client will be closed, inform client
             if (
                 self._request_start_line.version == "HTTP/1.1"
                 and self._disconnect_on_finish
             ):
                 headers["Connection"] = "close"
-            # If a 1.0 client asked for keep-alive, add the header.
+            # If a 1.0 client asked for keep-alive, add the header
+            # (unless the connection is going to be closed anyway).
             if (
                 self._request_start_line.version == "HTTP/1.0"
+                and not self._disconnect_on_finish
                 and self._request_headers.get("Connection", "").lower() == "keep-alive"
             ):
                 headers["Connection"] = "Keep-Alive"
